@@ -457,6 +457,16 @@ func modelMarshal(md protoreflect.MessageDescriptor, ref protoreflect.Message, n
 	Model("gen-marshal", "G marshal ; "+ms.text+" ; 0 ; "+ms.valueNil(ref, nilEnt), impl)
 }
 
+// modelMarshalTo: the same request as modelMarshal, answered by what a successful MarshalTo() left in a destination
+// of Size() bytes that held other data before — the model fills the whole buffer with the encoding.
+func modelMarshalTo(md protoreflect.MessageDescriptor, ref protoreflect.Message, nilEnt *nilMapEntry, size int, dest []byte) {
+	ms := modelSchemaFor(md)
+	if !ms.ok || usesUnmodelled(ref) {
+		return
+	}
+	Model("gen-marshalto-dirty-buffer", "G marshal ; "+ms.text+" ; 0 ; "+ms.valueNil(ref, nilEnt), fmt.Sprintf("size=%d ok %s", size, hx(canonMapOrder(md, dest))))
+}
+
 // modelUnmarshal sends one unmarshal case to the Lean model; impl is what the generated code did.
 func (rn *runner) modelUnmarshal(t *Target, name string, md protoreflect.MessageDescriptor, enc []byte, m interface{}, uerr error, panicked bool, malformed bool) {
 	ms := modelSchemaFor(md)
